@@ -350,8 +350,14 @@ package resolver
 //@   assert at call middleware/resolver/dnssec.KeyTag#1: arg0 == dnskey && foldEq(dnskey.Hdr.Name, signerLower) && (dnskey.Flags == 256 || dnskey.Flags == 257)
 //@   assert at mapupdate#1: themap == keys
 //@   assert at call middleware/resolver/dnssec.VerifyDSWithWork#1: arg0 == keys && arg1 == parentdsRR && len(parentdsRR) > 0
-//@   assert at call middleware/resolver/dnssec.VerifyRRSIGWithWork#1: arg0 == signer && arg1 == keys && arg2 == resp && lastret("middleware/resolver/dnssec.VerifyDSWithWork", 1) == nil
-//@   assert at return#12: result0 && result1 == nil && lastret("middleware/resolver/dnssec.VerifyRRSIGWithWork") && lastret("middleware/resolver/dnssec.VerifyRRSIGWithWork", 1) == nil && lastret("middleware/resolver/dnssec.VerifyDSWithWork", 1) == nil
+//@   # C01 (RFC 4035 5.2): when the reply being validated IS the signer's own DNSKEY RRset, its signature is checked only
+//@   # against the keys the parent's DS RRset authenticates (a key that merely arrived inside the RRset proves nothing
+//@   # about that RRset); every other reply is checked against the keys of the - already authenticated - DNSKEY RRset
+//@   assert at call middleware/resolver/dnssec.VerifyRRSIGWithWork#1: arg0 == signer && arg2 == resp && lastret("middleware/resolver/dnssec.VerifyDSWithWork", 1) == nil
+//@   assert at call middleware/resolver/dnssec.VerifyRRSIGWithWork#1: msg == resp ==> arg1 == lastret("middleware/resolver/dnssec.AnchoredKeysWithWork") && lastret("middleware/resolver/dnssec.AnchoredKeysWithWork", 1) == nil
+//@   assert at call middleware/resolver/dnssec.VerifyRRSIGWithWork#1: msg != resp ==> arg1 == keys
+//@   assert at call middleware/resolver/dnssec.AnchoredKeysWithWork#1: arg0 == keys && arg1 == parentdsRR && msg == resp
+//@   assert at return#13: result0 && result1 == nil && lastret("middleware/resolver/dnssec.VerifyRRSIGWithWork") && lastret("middleware/resolver/dnssec.VerifyRRSIGWithWork", 1) == nil && lastret("middleware/resolver/dnssec.VerifyDSWithWork", 1) == nil
 //@   assert at return#4: result0 && result1 == nil && lastret("(*middleware/resolver.Resolver).verifyRootKeys") && lastret("(*middleware/resolver.Resolver).verifyRootKeys", 1) == nil
 //@   assert at return#7: !result0 && result1 == nil && lastret("middleware/resolver/dnssec.VerifyDSWithWork") && lastret("middleware/resolver/dnssec.VerifyDSWithWork", 1) != nil
 //@   assert at return#2: !result0
@@ -359,8 +365,9 @@ package resolver
 //@   assert at return#5: !result0
 //@   assert at return#6: !result0
 //@   assert at return#9: !result0
-//@   assert at return#10: result1 != nil
-//@   assert at return#11: !result0 && result1 == nil
+//@   assert at return#10: !result0 && result1 != nil
+//@   assert at return#11: result1 != nil
+//@   assert at return#12: !result0 && result1 == nil
 //@   assert at return#1: result1 != nil
 //@   assert at return#8: result1 != nil
 //@
@@ -398,12 +405,16 @@ package resolver
 //@   assert at call (*middleware/resolver.Resolver).authenticatedDelegationDS#1: arg2 == curSigner && arg3 == candidate && arg4 == curDS
 //@
 //@ # a lookup error while deciding whether the zone is signed fails CLOSED (treated as signed)
+//@ # the ROOT zone has no parent and no DS: it is signed because its keys are the configured trust anchors. "No DS" is
+//@ # read as "unsigned" only for a zone that HAS a parent; for the root with trust anchors available a missing
+//@ # signature is a validation failure (an unsigned root answer or denial is never accepted as insecure data)
 //@ func (*Resolver).isZoneSecure
 //@   abstract
 //@   nosafety all pre
-//@   assert at return#3: result && lastret("(*middleware/resolver.Resolver).findDS", 1) != nil
-//@   assert at return#1: !result && !lastret("middleware/resolver.hasSupportedDS#1")
-//@   assert at return#4: result == lastret("middleware/resolver.hasSupportedDS#2")
+//@   assert at return#1: result && zone == "." && lastret("(*middleware/resolver.Resolver).hasTrustAnchors")
+//@   assert at return#2: !result && !lastret("middleware/resolver.hasSupportedDS#1") && !(zone == "." && len(parentDS) == 0 && lastret("(*middleware/resolver.Resolver).hasTrustAnchors"))
+//@   assert at return#4: result && lastret("(*middleware/resolver.Resolver).findDS", 1) != nil
+//@   assert at return#5: result == lastret("middleware/resolver.hasSupportedDS#2")
 //@
 //@ # ---- C01 / C11: a resolution error reaches the client as SERVFAIL built from the request (with the error's EDE),
 //@ # never as the partial upstream data; the resolver is entered with AD and RD cleared and, when validation is
@@ -483,6 +494,11 @@ package resolver
 //@   assert at call (*middleware/resolver.Resolver).searchCache#1: arg2 == rs.req.CheckingDisabled
 //@   assert at call (*middleware/resolver.Resolver).answer#1: arg2 == rs.req && arg3 == lastret("(*middleware/resolver.Resolver).setTags") && !lastret("(*middleware/resolver.Resolver).minimize", 1)
 //@   assert at call (*middleware/resolver.Resolver).authority#1: arg2 == rs.req && arg3 == lastret("(*middleware/resolver.Resolver).setTags")
+//@   # C01: a name error is a denial whatever its sections hold: an NXDOMAIN reply with EMPTY answer and authority
+//@   # sections is returned only as the result of authority() (which demands the proof under a signed zone), never as is
+//@   assert at return#4: lastret("(*middleware/resolver.Resolver).setTags").Rcode != dns.RcodeNameError
+//@   assert at return#3: result0 == lastret("(*middleware/resolver.Resolver).authority#1") && result1 == lastret("(*middleware/resolver.Resolver).authority#1", 1)
+//@   assert at call (*middleware/resolver.Resolver).authority#1: arg4 == rs.parentDS && arg5 == rs.servers.Zone
 //@
 //@ # ---- C09: the self-signature check of a revocation uses ONLY the revoked key (a one-key key set under its own tag)
 //@ # over a copy of the fetched answer
